@@ -13,7 +13,8 @@ class Body:
         self.parent = d["parent"]
         self.impl_self = d["impl_self"]
         self.impl_trait = d["impl_trait"]
-        self.derived = d["derived"]
+        self.derived = d["derived"] or '_serde::' in d["key"] or '_serde::' in d["uid"]
+        self.serde = '_serde::' in d["key"] or '_serde::' in d["uid"]
         self.captures = d["captures"]
         self.arg_count = d["arg_count"]
         self.span = d["span"]
